@@ -309,10 +309,10 @@ startConn:
 	} else {
 		c.conn = newMockConn(mock)
 	}
-	c.mu.Unlock()
 
 	var ctx context.Context
 	ctx, c.stop = context.WithCancel(context.Background())
+	c.mu.Unlock()
 
 	group := ctxgroup.New(ctx)
 
